@@ -34,6 +34,15 @@ SAME_NAMED_THREADS_QUIET2 = _case(
                   _t("t1", [], [_named_thread([_LOG, _GATE, _ERR])], rank=2)])]),
     _cfg(2, "lifo"))
 
+# ... and a variant whose verdict does not depend on which thread is first: both threads log, both are held, both then
+# log an error and are held again until the other one has logged its error too (fifo: the thread still at its first
+# gate is released before the one that reached its second gate).  Whichever thread opened its step last, the OTHER
+# one's error must still land in its own test.
+SAME_NAMED_THREADS_BOTH_FAIL = _case(
+    _p([_s("s0", [_t("t0", [], [_named_thread([_LOG, _GATE, _ERR, _GATE])]),
+                  _t("t1", [], [_named_thread([_LOG, _GATE, _ERR, _GATE])], rank=2)])]),
+    _cfg(2, "fifo"))
+
 # the same with a step change in one of the threads
 SAME_NAMED_THREADS_STEPS = _case(
     _p([_s("s0", [_t("t0", [], [_named_thread([_LOG, _GATE, {"a": "step", "d": "second"}, _LOG])]),
@@ -54,4 +63,96 @@ EMPTY_BACKEND_ERROR = dict(_case(
     _p([_s("s0", [_t("t0", [], [_LOG]), _t("t1", [], [_LOG], rank=2), _t("t2", [], [_LOG], rank=3)])]), _cfg(1)),
     fault={"k": 3, "cls": "Exception", "text": ""})
 
-CONTROLS = [SAME_NAMED_THREADS, SAME_NAMED_THREADS_QUIET, SAME_NAMED_THREADS_QUIET2, SAME_NAMED_THREADS_QUIET, SAME_NAMED_THREADS_QUIET2, SAME_NAMED_THREADS_STEPS, SAME_NAMED_SUBSUITES]
+# ---- second seeded campaign: input classes no generated project reached -----------------------------------------
+
+def _blk(script):
+    return {"a": "attachw", "script": list(script)}
+
+
+_STEP = lambda d: {"a": "step", "d": d}      # noqa: E731
+_ATT = {"a": "attach"}
+
+# node NAMES containing dots (`@lcc.test(name="v1.2")`, parametrized naming schemes fed with versions / addresses,
+# `@lcc.suite(name="api.v2")`): a path is a list of names, never the dotted string split again
+DOTTED_NAMES = _case(
+    _p([_s("compat", [_t("first", [], [_LOG]), _t("check_1.2", [], [_LOG, _STEP("more"), _ATT], rank=2)],
+           suites=[_s("api.v2", [_t("ping_10.0.0.1", [], [_LOG])], setup_suite={"params": [], "script": [_LOG]},
+                      teardown_suite=[_LOG])]),
+        _s("pkg.mod", [_t("t", [], [_LOG])], rank=2)]),
+    _cfg(1))
+DOTTED_NAMES_THREADS = dict(DOTTED_NAMES, project=dict(DOTTED_NAMES["project"], nb_threads=3))
+
+# `with lcc.prepare_attachment(..):` blocks whose body logs further attachments from the same thread (a nested block, a
+# save_attachment), changes the step, starts and joins an lcc.Thread that saves an attachment itself; in a test body,
+# a hook and a fixture.  Nothing may wait for the block to be left.
+ATTACH_BLOCKS = _case(
+    _p([_s("s0", [_t("t0", ["f0"], [_LOG, _blk([_ATT, _STEP("inside"), _blk([_LOG, _ATT]), _LOG]), _LOG]),
+                  _t("t1", [], [_blk([{"a": "thread", "script": [_ATT, _blk([_LOG])]}]), _ATT], rank=2)],
+           setup_test=[_blk([_ATT])])],
+       [_f("f0", "test", [_blk([_blk([_ATT])])], teardown=[_blk([_ATT])])]),
+    _cfg(2))
+# ... and a block left by an exception (raised by its body; by a nested block): no attachment event, the failure is the
+# test's, the blocks around it are left too
+ATTACH_BLOCK_RAISES = _case(
+    _p([_s("s0", [_t("t0", [], [_blk([_LOG, _blk([{"a": "raise", "kind": "exc"}]), _LOG]), _LOG]),
+                  _t("t1", [], [_blk([{"a": "raise", "kind": "AbortSuite", "sub": True}])], rank=2),
+                  _t("t2", [], [_LOG], rank=3)])]),
+    _cfg(1))
+
+# an lcc.Thread whose target raises lcc.AbortTest / AbortSuite / AbortAllTests itself, with nothing else failing in the
+# test / the setup phase that started it: `Thread.run` logs it, the location is failed, nothing is aborted
+ABORT_IN_THREAD = _case(
+    _p([_s("workers", [_t("gives_up", [], [_LOG, {"a": "thread", "script": [_LOG, {"a": "raise", "kind": "AbortTest"}]}, _LOG]),
+                       _t("suite_abort", [], [{"a": "thread", "script": [{"a": "raise", "kind": "AbortSuite"}]}], rank=2),
+                       _t("all_good", [], [_LOG], rank=3)]),
+        _s("downloads", [_t("download", [], [_LOG])], rank=2,
+           setup_suite={"params": [], "script": [{"a": "thread", "script": [{"a": "raise", "kind": "AbortAllTests", "sub": True}]}]})]),
+    _cfg(1))
+
+# --stop-on-failure with 2 workers: s1.t1 is held in the setup_test hook of its suite while s0.t0 fails; the body of
+# t1 then runs (it was started before the failure) — or t1 is not reported passed
+STOP_ON_FAILURE_IN_SETUP = _case(
+    _p([_s("s0", [_t("t0", [], [_GATE, _ERR])]),
+        _s("s1", [_t("t1", [], [_LOG])], rank=2, setup_test=[_GATE, _GATE])], stop=True),
+    _cfg(2, "fifo"))
+STOP_ON_FAILURE_IN_FIXTURE = _case(
+    _p([_s("s0", [_t("t0", [], [_GATE, _ERR])]),
+        _s("s1", [_t("t1", ["f0"], [_LOG])], rank=2)],
+       [_f("f0", "test", [_GATE, _GATE, _LOG], teardown=[_LOG])], stop=True),
+    _cfg(2, "fifo"))
+
+# one test depending on two SAME-NAMED tests of different suites (users.prepare + orders.prepare); the second one
+# fails / is slow: the dependent test waits for both and is skipped
+SAME_NAMED_DEPENDENCIES = _case(
+    _p([_s("users", [_t("prepare", [], [_LOG])]),
+        _s("orders", [_t("prepare", [], [_GATE, _ERR])], rank=2),
+        _s("checkout", [_t("pay", [], [_LOG], deps=[["users", "prepare"], ["orders", "prepare"]]),
+                        _t("refund", [], [_LOG], deps=[["checkout", "pay"]], rank=2)], rank=3)]),
+    _cfg(3, "fifo"))
+SAME_NAMED_DEPENDENCIES_SEQ = dict(SAME_NAMED_DEPENDENCIES, project=dict(SAME_NAMED_DEPENDENCIES["project"], nb_threads=1), strategy="off")
+
+# set_step called again with the description of the step that is current (a polling loop), records after each call:
+# in the test's thread, in an lcc.Thread, and with the description the runner itself has just set
+SAME_STEP_AGAIN = _case(
+    _p([_s("s0", [_t("t0", [], [_STEP("poll"), _LOG, _STEP("poll"), _LOG, _STEP("poll"), _ATT,
+                                {"a": "thread", "script": [_STEP("poll"), _LOG, _STEP("poll"), _LOG]}]),
+                  _t("t1", [], [_STEP("test t1"), _LOG], rank=2)])]),
+    _cfg(1))
+
+# abort raised through PROJECT-DEFINED SUBCLASSES of AbortSuite / AbortAllTests (body, setup_test hook)
+SUBCLASS_ABORT_ALL = _case(
+    _p([_s("a", [_t("a1", [], [_LOG, {"a": "raise", "kind": "AbortAllTests", "sub": True}]), _t("a2", [], [_LOG], rank=2)],
+           suites=[_s("sub", [_t("s1", [], [_LOG])])], teardown_suite=[_LOG]),
+        _s("b", [_t("b1", [], [_LOG])], rank=2)]),
+    _cfg(1))
+SUBCLASS_ABORT_SUITE = _case(
+    _p([_s("a", [_t("a1", [], [{"a": "raise", "kind": "AbortSuite", "sub": True}]), _t("a2", [], [_LOG], rank=2)],
+           suites=[_s("sub", [_t("s1", [], [_LOG])])]),
+        _s("b", [_t("b1", [], [_LOG])], rank=2, setup_test=[{"a": "raise", "kind": "AbortSuite", "sub": True}])]),
+    _cfg(1))
+
+CONTROLS2 = [DOTTED_NAMES, DOTTED_NAMES_THREADS, ATTACH_BLOCKS, ATTACH_BLOCK_RAISES, ABORT_IN_THREAD, STOP_ON_FAILURE_IN_SETUP,
+             STOP_ON_FAILURE_IN_FIXTURE, SAME_NAMED_DEPENDENCIES, SAME_NAMED_DEPENDENCIES_SEQ, SAME_STEP_AGAIN,
+             SUBCLASS_ABORT_ALL, SUBCLASS_ABORT_SUITE]
+
+CONTROLS = [SAME_NAMED_THREADS, SAME_NAMED_THREADS_BOTH_FAIL, SAME_NAMED_THREADS_QUIET, SAME_NAMED_THREADS_QUIET2, SAME_NAMED_THREADS_QUIET, SAME_NAMED_THREADS_QUIET2, SAME_NAMED_THREADS_STEPS, SAME_NAMED_SUBSUITES]
